@@ -322,7 +322,7 @@ func vgenUpdate(r *rand.Rand, o *vgenOptSet, quirk string, core bool, meta *vgen
 // vgenMessage draws one message of any type. core restricts UPDATEs to the core families.
 // vgenQuirks are value classes that are legal on the wire but rarely used; at most one of them is
 // enabled per message so that a failure can be attributed to it.
-var vgenQuirks = []string{"label-sentinel-in-stack", "evpn-ipmsi", "flowspec-long", "mcast-flags-none-or-both", "encap-empty-tlv", "ls-sr-ranges", "open-param-253"}
+var vgenQuirks = []string{"label-sentinel-first-in-stack", "label-sentinel-inside-stack", "evpn-ipmsi", "flowspec-long", "mcast-flags-none-or-both", "encap-empty-tlv", "ls-sr-ranges", "open-param-253"}
 
 func vgenMessage(r *rand.Rand, o *vgenOptSet, quirk string, core bool) (*BGPMessage, *vgenMeta) {
 	meta := &vgenMeta{}
